@@ -155,10 +155,10 @@ def _refusal(prog, f, e, depth=2):
     if cval(u) == EAGAIN:
         return True
     if u.get('k') == 'cond':
-        c, a, b = unwrap(u['c']), unwrap(u['t']), unwrap(u['f'])
-        if c.get('k') == 'bin' and c.get('op') == '<' and cval(unwrap(c['r'])) == 0 and estr(unwrap(c['l'])) == estr(a) and cval(b) == EAGAIN:
-            return True
-        return False
+        a, b = unwrap(u['t']), unwrap(u['f'])
+        neg = lambda sense, x: any(at.ls == estr(x) and at.op == '<' and at.rc == 0 for at in atoms_of(u['c'], sense))
+        # (x < 0) ? x : -EAGAIN   or   (x >= 0) ? -EAGAIN : x
+        return (neg(True, a) and cval(b) == EAGAIN) or (neg(False, b) and cval(a) == EAGAIN)
     if u.get('k') == 'call' and depth > 0:
         cands = [g for g in prog.fns.get(callee_of(u) or '', []) if g.file == f.file]
         return len(cands) == 1 and bool(cands[0].returns()) and all(_refusal(prog, cands[0], r.e, depth - 1) for r in cands[0].returns())
